@@ -1,4 +1,5 @@
 import RTA.Lemmas.Agree
+import RTA.Lemmas.FifoLeEs
 /-! # C19 — analyses agree with each other on their common special cases -/
 
 namespace RTA.C19
@@ -72,6 +73,13 @@ theorem event_source_eq_fifo_partial (r : RB) (hwf : r.ArrWF) (hex : r.Exact) (l
     (hjump : r.need (L + 1) ≤ L + R) :
     rosEventSource .dedicated r limit = .ok R :=
   eventSource_eq_fifo_partial r hwf hex limit L R hl hL hR hjump
+
+/-- finding K3, the direction that always holds: the event-source bound on a dedicated processor
+is never smaller than the FIFO bound (it examines the additional offset `A = L`), and a FIFO
+error is an event-source error -/
+theorem fifo_le_event_source (r : RB) (hwf : r.ArrWF) (hex : r.Exact) (limit : Nat) (hl : 1 ≤ limit) :
+    Res.leD (fifoRta r limit) (rosEventSource .dedicated r limit) :=
+  RTA.fifo_le_event_source r hwf hex limit hl
 
 /-- finding K3: without the side condition they differ (`Curve [4,4,9]`, WCET 4: 8 vs 4),
 because `bound_response_time` also examines the offset `A = L` -/
